@@ -206,6 +206,20 @@ def final(ctx):
     ctx.check(ok, skip[0] if skip else lp, "folders are skipped in the first pass", "folders are not deferred: files inside tracked folders may be unlinked after their folder")
     after = [s for s in fin[fin.index(lp) + 1:] if any(const_value(a) == "folder" for c in calls_in(s) for a in c.args)]
     ctx.check(bool(after), after[0] if after else lp, "and cleaned last", "remaining folders are never cleaned at shutdown")
+    g = cfg_of(f)
+    for st in after:
+        for c in [c for c in calls_in(st) if any(const_value(a) == "folder" for a in c.args)]:
+            fc = cond_facts([c_ for c_ in g.conditions_at(g.nodes_of(c)) if isinstance(c_[0], ast.If) and any(c_[0] is x for x in ast.walk(ast.Module(body=fin, type_ignores=[])))])
+            ctx.check(fc in ([], [("'folder' in registry", True)]), c, "unconditionally (or when the folder type is known)", "the folder pass runs under %s: remaining folders are never cleaned" % fc)
+    for c in [c for s_ in lp.body for c in calls_in(s_) if helper and call_name(c) == helper[0].name]:
+        fc = cond_facts([c_ for c_ in g.conditions_at(g.nodes_of(c)) if in_block(c_[0], lp.body)])
+        ctx.check(fc == [("rtype == 'folder'", False)], c, "every other type is cleaned in the first pass", "the first pass cleans a type under %s" % fc)
+    # the tracker outlives ^C / kill aimed at its clients' process group
+    ign = {unparse(c.args[0]) for c in calls_in(f) if call_name(c) == "signal.signal" and len(c.args) == 2 and unparse(c.args[1]) == "signal.SIG_IGN"}
+    first_loop = [n for n in ast.walk(f) if isinstance(n, ast.While)]
+    ctx.check({"signal.SIGINT", "signal.SIGTERM"} <= ign and all(g.every_path_to(g.nodes_of(first_loop[0]), g.nodes_of(c)) for c in calls_in(f) if call_name(c) == "signal.signal") if first_loop else False, f,
+              "the tracker ignores SIGINT and SIGTERM before it starts serving (it must outlive its clients to clean up after them)",
+              "the tracker no longer ignores SIGINT/SIGTERM: the signal that kills the clients kills it too, and nothing is cleaned up")
     if helper:
         h = helper[0]
         inner = [l for l in nodes_of_type(h, ast.For)]
